@@ -26,6 +26,7 @@ var (
 func checkC14(c *chk.Ctx) {
 	h := newH(c)
 	c.Decided = []string{
+		"R14h recovered sessions do not share one metadata object (no loop-carried address in the session manager)",
 		"R14g within one put the previous owner's ownership entry is removed before the new one is written, never after it (when a session re-writes its own record both are the same key)",
 		"R14a a shadow (ownership) entry is only written after the session's key was found in the same batch; a missing session yields SESSION_DOES_NOT_EXIST",
 		"R14b every mutation kind (put, delete, delete with entry, range delete) removes the previous owner's shadow; the wrapper callback chains session then index handling for all four kinds; the apply functions invoke the callback before mutating the record",
@@ -45,6 +46,7 @@ func checkC14(c *chk.Ctx) {
 	ruleR12fInto(h, "R14e")
 	ruleR14f(h)
 	ruleR14g(h)
+	ruleNoLoopCarriedAlias(h, "R14h")
 }
 
 func isResultOf(h *H, v ssa.Value, spec ir.Callee) *ssa.Call {
